@@ -117,6 +117,7 @@ class Note:
 @dataclass
 class Chord:
     notes: List[Note] = field(default_factory=list)
+    display_mix: bool = False     # explored class: accidental on one note, a signifier X / i / j / Z on another
 
     def union_sigs(self, rests=False):
         """The notes of a chord share their signifiers; the rests written among them share theirs, and neither kind takes those
@@ -235,9 +236,13 @@ def rand_rest(rng, *, hostile=0.5, allow_sigs=True) -> Note:
     return Note(dur=dur, dots=dots, letters='r', rest=True, sigs=sigs)
 
 
-def rand_chord(rng, *, hostile=0.5, allow_acc=True, allow_sigs=True, allow_grace=True, sizes=(2, 2, 3, 3, 4), max_sigs=3) -> Chord:
+def rand_chord(rng, *, hostile=0.5, allow_acc=True, allow_sigs=True, allow_grace=True, sizes=(2, 2, 3, 3, 4), max_sigs=3,
+               display_mix=0.0) -> Chord:
+    """display_mix: probability of the explored class 'a chord in which one note has an accidental and ANOTHER note carries one of
+    the signifiers X i j Z' (characters the grammar also reads as a display mark when they follow an accidental)."""
     n = rng.choice(list(sizes))
-    has_acc = allow_acc and rng.random() < 0.5
+    mix = display_mix > 0 and rng.random() < display_mix
+    has_acc = allow_acc and (mix or rng.random() < 0.5)
     notes = []
     # a rest inside a chord, at any place: it keeps the signifiers written on rests, the notes keep theirs
     rest_at = {rng.randrange(n)} if rng.random() < 0.10 else set()
@@ -258,4 +263,11 @@ def rand_chord(rng, *, hostile=0.5, allow_acc=True, allow_sigs=True, allow_grace
     if all(x.rest for x in notes):
         notes[0] = rand_note(rng, hostile=hostile, allow_grace=False, allow_acc=False, allow_sigs=False,
                              allow_nodur=False, chord_has_acc=has_acc)
-    return Chord(notes)
+    ch = Chord(notes)
+    if mix:
+        plain = [x for x in notes if not x.rest and not x.acc]
+        if plain and any(x.acc for x in notes if not x.rest):
+            x = rng.choice(plain)
+            x.sigs = tuple(sorted(set(x.sigs) | {rng.choice(sorted(DISPLAY_LIKE))}))
+            ch.display_mix = True
+    return ch
